@@ -454,7 +454,7 @@ string<A> frequent_items_sketch<T, W, H, E, A>::to_string(bool print_items) cons
   os << "   max error        : " << get_maximum_error() << std::endl;
   os << "### End sketch summary" << std::endl;
   if (print_items) {
-    vector_row items;
+    vector_row items(map.get_allocator());
     for (auto it: map) {
       items.push_back(row(&it.first, it.second, offset));
     }
